@@ -55,13 +55,49 @@ Theorem C17_every_run_well_formed : forall G fuel order k ms,
 Proof. exact every_run_well_formed. Qed.
 Print Assumptions C17_every_run_well_formed.
 
-(* ---- DeepCopy of nil is nil (pointer receivers and map types) ---- *)
+(* ---- DeepCopy of nil is nil (pointer receivers and map types) ----
+   Stated on the METHOD BODY: [deep_copy] / [deep_copy_map] (Model/DeepCopy.v) look the declared DeepCopy method of the
+   type up in the generated file [ms] and execute its statements ([copy_body]: nil guard; out := new(T) / make(T);
+   in.DeepCopyInto(out); return out — the fixed text of the templates deepcopy.go:80-88, 91-99, 131-140) on a receiver
+   that may be nil.  What ties [copy_body] to the code: the harness abstracts a generated function to MPtrCopy /
+   MMapCopy only if its text is exactly this statement list (parse.go rePtrCopy / reMapCopy), on every run. *)
 
 Theorem C17_nil : forall fuel G ms n h,
-  deep_copy fuel G ms n None h = Ok (None, h) /\
-  (has_map_methods ms n = true -> exec_copy_map ms n (VMap None) h = Ok (VMap None, h)).
+  (has_ptr_copy ms n = true -> deep_copy fuel G ms n None h = Ok (None, h)) /\
+  (has_map_methods ms n = true -> deep_copy_map ms n (VMap None) h = Ok (VMap None, h)).
 Proof. exact nil_copy. Qed.
 Print Assumptions C17_nil.
+
+(* ... for every enabled struct, scalar and map type of a generated file *)
+Theorem C17_nil_generated : forall G order fuel vis ms,
+  dom G -> vis_ok G vis -> gen_deepcopy fuel all_fixed G order vis = Ok ms ->
+  forall n d h fuel',
+    In n order -> lookup G n = Some d -> enabled G d = true ->
+    ((d_kind d = DScalar \/ exists tp fs, d_kind d = DStruct tp fs) -> deep_copy fuel' G ms n None h = Ok (None, h)) /\
+    (forall k e, d_kind d = DMap k e -> deep_copy_map ms n (VMap None) h = Ok (VMap None, h)).
+Proof. exact nil_copy_generated. Qed.
+Print Assumptions C17_nil_generated.
+
+(* it is the guard statement that gives nil: the same bodies without it do not (nil dereference inside DeepCopyInto, a
+   non-nil pointer, a non-nil empty map), and a type without a declared DeepCopy has no result *)
+Theorem C17_nil_needs_the_guard : forall into h r,
+  (run_ptr_copy into None [CNew; CCallInto; CReturnOut] OUndeclared h <> Ok r /\
+   run_ptr_copy into None [CNew; CReturnOut] OUndeclared h <> Ok (None, h)) /\
+  run_map_copy true None [CMake; CCallInto; CReturnOut] None h = Ok (VMap (Some (List.length h)), h ++ [CMap []]) /\
+  (forall fuel G ms n p, has_ptr_copy ms n = false -> deep_copy fuel G ms n p h = Panic).
+Proof.
+  exact (fun into h r => conj (nil_guard_needed into h r) (conj (map_nil_guard_needed h)
+           (fun fuel G ms n p => deep_copy_undeclared fuel G ms n p h))).
+Qed.
+Print Assumptions C17_nil_needs_the_guard.
+
+(* on a non-nil receiver the executed body is [exec_copy] / [exec_copy_map], which the copy theorems below are about *)
+Theorem C17_deep_copy_is_method_body : forall fuel G ms n,
+  (forall v h, deep_copy fuel G ms n (Some v) h = let! (v', h') := exec_copy fuel G ms n v h in Ok (Some v', h')) /\
+  (forall l h, has_map_methods ms n = true -> cell_is_map h l ->
+               deep_copy_map ms n (VMap l) h = exec_copy_map ms n (VMap l) h).
+Proof. exact deep_copy_is_method_body. Qed.
+Print Assumptions C17_deep_copy_is_method_body.
 
 (* ---- a copy is deeply equal to its original, all its containers are fresh, and therefore no write through
         any slice or map of the copy, at any struct nesting depth, changes the original ---- *)
@@ -178,6 +214,17 @@ Proof. split; vm_compute; reflexivity. Qed.
 
 Example C17_ex_value_typed : wt w_all w_heap (FNamed (bs "Root") []) w_value.
 Proof. vm_compute. repeat split; eauto. Qed.
+
+Example C17_ex_nil :
+  match gen_deepcopy 8 all_fixed w_all w_all_order [] with
+  | Ok ms =>
+      find_ptr_copy ms (bs "Root") = Some [CNilGuard; CNew; CCallInto; CReturnOut] /\
+      deep_copy 4 w_all ms (bs "Root") None w_heap = Ok (None, w_heap) /\
+      (exists v' h', deep_copy 4 w_all ms (bs "Root") (Some w_value) w_heap = Ok (Some v', h') /\
+                     snapshot h' v' = snapshot w_heap w_value)
+  | _ => False
+  end.
+Proof. vm_compute. split; [reflexivity|]. split; [reflexivity|]. eexists. eexists. split; reflexivity. Qed.
 
 Example C17_ex_copy :
   match gen_deepcopy 8 all_fixed w_all w_all_order [] with
